@@ -46,6 +46,10 @@ CLAIMS = {
             "are used before anything mutates the probe sets, StripedSet::internal_resize moves every element of every old bucket once into "
             "bucket(hash(element)) of the new table and frees the old table afterwards, every bucket adapter/policy inserts the moved item "
             "exactly once. SplitList/Feldman growth is not covered here.", PATHS, "DESIGN.md §4 C17"),
+    "C24": ("other", "Path rules over the three Vyukov-queue pools and pool_allocator: deallocate gives an object to exactly one owner (queue iff in "
+            "the preallocated range / lazy: queue xor heap), destroyed before published, refused pushes retried; allocate returns the popped "
+            "object or one fresh allocation; preallocation pushes each object of [first,last) once and from_pool tests exactly that range; "
+            "pool_allocator forwards. One-slot-per-object exclusivity rests on the queue (C07).", PATHS, "DESIGN.md §4 C24"),
     "C25": ("proof", "For ALL inputs (one fully symbolic integer, bit-provenance abstract interpretation): every bit-reversal routine equals the "
             "reference reversal; number_splitter::cut for every (offset,count); affine proof that safe_cut clamps to rest_count(); cursor reads "
             "are bounds-justified; no implicitly widened narrow shift. Not decided: asm MSB/LSB, popcounts, log2*, looped cut bodies.",
